@@ -44,7 +44,7 @@ pub struct PasswordAlgorithms {
 impl PasswordAlgorithms {
     /// Adds a new password algorithm.
     pub fn add(&mut self, algorithm: PasswordAlgorithm) {
-        Arc::get_mut(&mut self.algorithms).unwrap().push(algorithm);
+        Arc::make_mut(&mut self.algorithms).push(algorithm);
     }
 
     /// Return the array of password attributes
